@@ -6,6 +6,7 @@ import (
 	"go/token"
 	"go/types"
 	"math"
+	"strings"
 
 	"golang.org/x/tools/go/ssa"
 )
@@ -355,6 +356,12 @@ var exactScopeExcluded = map[string]string{
 }
 
 func ruleExactTruncation(min int) func(p *Prog, l *Ledger, tier string) {
+	return ruleExactTruncationIn("", min)
+}
+
+// ruleExactTruncationIn: the same rule restricted to the functions declared in one source file
+// ("" = the whole library).
+func ruleExactTruncationIn(file string, min int) func(p *Prog, l *Ledger, tier string) {
 	return func(p *Prog, l *Ledger, tier string) {
 		const rule = "E3c.exact-truncation"
 		a := NewNilAnalysis(p)
@@ -377,6 +384,9 @@ func ruleExactTruncation(min int) func(p *Prog, l *Ledger, tier string) {
 		for _, fn := range p.LibFns {
 			name := FnName(fn)
 			if _, skip := exactScopeExcluded[name]; skip || name == "init" || excluded[fn] {
+				continue
+			}
+			if file != "" && !strings.HasPrefix(p.Pos(fn.Pos()), file+":") {
 				continue
 			}
 			for _, ins := range truncSites(fn) {
@@ -432,7 +442,18 @@ func ruleExactTruncation(min int) func(p *Prog, l *Ledger, tier string) {
 						if k == 1 {
 							other = m.X
 						}
-						// d.Milliseconds() / d.Microseconds() are truncating quotients too
+						// d.Milliseconds() / d.Microseconds() are truncating quotients too, and so is what is
+						// left of them after taking a remainder or adding a constant (ms % 1000)
+						if cn := truncatedDurationUnit(side, 0); cn != "" {
+							if _, direct := stripConv(side).(*ssa.Call); !direct {
+								if _, isC := constInt(stripConv(other)); !isC {
+									n++
+									key := l.Key(rule, name, "scaled-quotient", cn)
+									l.Fail(rule, name, key, p.Pos(m.Pos()), fmt.Sprintf("%s scales a value derived from %s, which has already dropped the sub-unit part of the duration: a frame boundary that is not a whole number of that unit (33.333334 ms at 30 fps) is computed one too low", name, cn))
+								}
+								continue
+							}
+						}
 						if c, ok := stripConv(side).(*ssa.Call); ok {
 							if cn := calleeName(&c.Call); cn == "(time.Duration).Milliseconds" || cn == "(time.Duration).Microseconds" {
 								if one, isC := constInt(stripConv(other)); isC && (one == 1 || one == 1000 || one == 1000000) {
@@ -704,4 +725,26 @@ func stripAllConv(v ssa.Value) ssa.Value {
 		}
 		return v
 	}
+}
+
+// truncatedDurationUnit: v is (time.Duration).Milliseconds()/Microseconds() or is obtained from one by
+// remainders, sums and differences with constants: the name of the accessor, "" otherwise.
+func truncatedDurationUnit(v ssa.Value, depth int) string {
+	if depth > 6 {
+		return ""
+	}
+	switch x := stripConv(v).(type) {
+	case *ssa.Call:
+		if cn := calleeName(&x.Call); cn == "(time.Duration).Milliseconds" || cn == "(time.Duration).Microseconds" {
+			return cn
+		}
+	case *ssa.BinOp:
+		switch x.Op {
+		case token.REM, token.ADD, token.SUB:
+			if _, isC := constInt(stripConv(x.Y)); isC {
+				return truncatedDurationUnit(x.X, depth+1)
+			}
+		}
+	}
+	return ""
 }
